@@ -55,6 +55,44 @@ CHECKS = {
         'checks reflexivity, symmetry, transitivity, type-strictness, != as negation, contains as exists-==, the five false-like shapes and '
         'operand-returning &&/|| on the model; number literals in 15 spellings are compared pairwise.',
    note='Pool-bounded.'),
+ 'C04': dict(
+   level='model_checking', ref='DESIGN.md 6 (C04), 3.3',
+   technique='TLA+ lexer+grammar as language recogniser; TLC enumerates all lexeme concatenations up to length k, accept sets compared with Compile',
+   text='GenChars enumerates every concatenation of at most k lexemes over five alphabets (structural characters, literal characters and '
+        'escapes, operator spellings, keywords/functions, hash syntax); the specification decides the static outcome of each and TLC '
+        'prints the non-rejected ones; the harness enumerates the same strings, compiles each with the real library and requires a syntax '
+        'error exactly for the rest (both directions: member rejected, non-member accepted), and MustCompile panics iff Compile fails.',
+   note='Exhaustive only up to k lexemes per alphabet; texts whose treatment the standard leaves open (blanks inside [*], let/in as names, unpaired surrogates) admit both verdicts.'),
+ 'C05': dict(
+   level='model_checking', ref='DESIGN.md 6 (C05), 3.2',
+   technique='bignum decimal arithmetic written in TLA+ (checked by TLC against integer arithmetic and algebraic laws) as oracle; operand-pool products replayed into the Go library',
+   text='Decimal.tla computes exact results on digit sequences; DecimalLaws checks it against TLC integers on all pairs of small scaled '
+        'integers (and algebraic laws on 34-digit operands in the thorough tier); GenArith takes every ordered pair of the operand pool '
+        'through + - * / // %, six comparisons, sum, avg, abs, ceil, floor, unary signs and to_number, with operands as literals, JSON '
+        'text and decimal values; results of more than 34 digits must lie within one unit of the 34th digit.',
+   note='The oracle is my own bignum code (trusted after the law checks). // and % are Open for operands of opposite sign, results below the normal range are Open.'),
+ 'C11': dict(
+   level='model_checking', ref='DESIGN.md 6 (C11)',
+   technique='strings are code-point sequences in the TLA+ spec; TLC enumerates all strings over a mixed-width alphabet x string operations, replayed into the Go library',
+   text='GenStr builds every string of length <= n over {a, e-acute, U+0301, euro, U+FFFD, emoji} and evaluates ~170 string operations '
+        '(length, slices, reverse, find_*, pad_*, split, sort/max/min/sort_by, starts/ends_with, contains, join, replace, trim) on each; '
+        'TLC checks the renaming homomorphism on the model; the harness compares the real results and checks every result string is valid UTF-8.',
+   note='Alphabet and length bounded; case mapping and default trim on non-ASCII text are Open.'),
+ 'C13': dict(
+   level='model_checking', ref='DESIGN.md 6 (C13)',
+   technique='stable insertion sort in TLA+ with its defining predicate checked by TLC; parameterised arrays (lengths around and beyond the small-array threshold) replayed into the Go library',
+   text='GenSort builds arrays of records with unique payloads from (length, key pattern, key kind, seed); TLC checks that the spec sort is a '
+        'permutation, ordered, and keeps ties in input order; the harness replays sort_by, max_by, min_by, sort, max, min and the '
+        'invalid-type cases and compares exactly (stability is visible through the payloads).',
+   note='Lengths up to 20 (quick) / 64 (thorough); extremal elements with tied keys are Open.'),
+ 'C16': dict(
+   level='model_checking', ref='DESIGN.md 6 (C16), 3.3',
+   technique='decoders and encoders of the three literal syntaxes in TLA+ with Dec(Enc(s))=s checked by TLC; all short strings over the delimiter/escape alphabet replayed into the Go library',
+   text='GenLit builds every string of length <= n over the characters that matter to literals, encodes it as raw string (2 spellings), '
+        'JSON literal and quoted identifier (minimal and all-\\uXXXX escapes, surrogate pairs), and requires the real code to evaluate '
+        'each to the string / select the member named by it; plus JSON values between backticks, preserved raw-string escapes and '
+        'ill-formed surrogate escapes.',
+   note='Length bounded; numbers inside JSON literals are small here (C05 covers long ones).'),
 }
 
 ALL = ['C%02d' % i for i in range(1, 21)]
